@@ -31,7 +31,7 @@ SHAPES = ["zero", "step", "ramp", "triangle", "constant"]
 
 
 def budget_s(tier):
-    return 500 if tier == "quick" else 3600
+    return 1500 if tier == "quick" else 7200
 
 
 def levels(tier):
